@@ -13,6 +13,9 @@
 #include <wchar.h>
 #include <pthread.h>
 #include <stdint.h>
+#include <sys/mman.h>
+#include <unistd.h>
+#include <signal.h>
 #include <uriparser/Uri.h>
 
 #ifdef DRV_WIDE
@@ -32,7 +35,10 @@ static void text_decode(const char *f, CH *dst) { if (f[0] == '-' || f[0] == '_'
 
 /* shared, read-only while the threads run */
 static const CH *g_ref; static size_t g_refn;
-static T(Uri) g_base; static int g_base_ok;
+static T(Uri) *g_basep; static int g_base_ok;     /* lives in a page of its own that is read-only while the threads run */
+#define g_base (*g_basep)
+static void on_segv(int sig) { (void)sig; static const char m[] = "thr !write-to-shared-read-only-input (SIGSEGV on its page)\n"; if (write(1, m, sizeof m - 1) < 0) _exit(3); _exit(0); }
+static void *page_alloc(size_t n, size_t *maplen) { size_t pg = (size_t)sysconf(_SC_PAGESIZE); *maplen = ((n + pg - 1) / pg + 1) * pg; void *p = mmap(NULL, *maplen, PROT_READ | PROT_WRITE, MAP_PRIVATE | MAP_ANONYMOUS, -1, 0); return p == MAP_FAILED ? NULL : p; }
 static T(QueryList) *g_ql; static int g_iters;
 
 static uint64_t mix(uint64_t h, uint64_t v) { h ^= v + 0x9e3779b97f4a7c15ULL + (h << 6) + (h >> 2); return h; }
@@ -60,6 +66,10 @@ static uint64_t workload(int *errors) {
 			if (F(ToString)(buf, &u, need + 1, &w) == 0) h = mix_text(h, buf, buf + need); else (*errors)++; free(buf); } }
 	if (g_base_ok) {
 		rc = F(AddBaseUri)(&d, &u, &g_base); h = mix(h, (uint64_t)rc);
+		/* read-only uses of the shared base itself */
+		h = mix(h, F(NormalizeSyntaxMaskRequired)(&g_base));
+		h = mix(h, (uint64_t)F(EqualsUri)(&g_base, &g_base));
+		{ int need = 0; if (F(ToStringCharsRequired)(&g_base, &need) == 0) h = mix(h, (uint64_t)need); }
 		if (rc == 0) {
 			h = mix_uri(h, &d);
 			h = mix(h, F(NormalizeSyntaxMaskRequired)(&d));
@@ -109,10 +119,16 @@ int main(void) {
 		if (!op || strcmp(op, "thr") || !f2) { puts("?"); continue; }
 		int nthr = atoi(a1); g_iters = atoi(a2); if (nthr > 64) nthr = 64;
 		size_t n = text_len(f1), bn = text_len(f2);
-		CH *t = malloc((n + 1) * sizeof(CH)), *b = malloc((bn + 1) * sizeof(CH));
+		size_t tmap, bmap, umap;
+		CH *t = page_alloc((n + 1) * sizeof(CH), &tmap), *b = page_alloc((bn + 1) * sizeof(CH), &bmap);
+		g_basep = page_alloc(sizeof(T(Uri)), &umap);
+		if (!t || !b || !g_basep) { puts("thr !nomem"); continue; }
 		text_decode(f1, t); text_decode(f2, b); t[n] = 0; b[bn] = 0;
 		g_ref = t; g_refn = n;
 		const CH *ep; g_base_ok = (F(ParseSingleUriEx)(&g_base, b, b + bn, &ep) == 0) && g_base.scheme.first;
+		/* from here on the shared inputs (reference text, base text, base URI structure) are read-only memory */
+		signal(SIGSEGV, on_segv);
+		mprotect(t, tmap, PROT_READ); mprotect(b, bmap, PROT_READ); mprotect(g_basep, umap, PROT_READ);
 		/* a shared query list built from the base text */
 		static CH k1[] = { 'k', ' ', '1', 0 }, v1[] = { 'v', '\n', '&', 0 }, k2[] = { 'e', 0 };
 		T(QueryList) q2 = { k2, NULL, NULL }, q1 = { k1, v1, &q2 }; g_ql = &q1;
@@ -122,8 +138,10 @@ int main(void) {
 		int mism = 0, errs = solo.errors;
 		for (int i = 0; i < nthr; i++) { pthread_join(th[i], NULL); if (res[i].digest != solo.digest) mism++; errs += res[i].errors; }
 		printf("thr digest=%016llx mismatches=%d errors=%d\n", (unsigned long long)solo.digest, mism, errs);
+		signal(SIGSEGV, SIG_DFL);
+		mprotect(t, tmap, PROT_READ | PROT_WRITE); mprotect(b, bmap, PROT_READ | PROT_WRITE); mprotect(g_basep, umap, PROT_READ | PROT_WRITE);
 		if (g_base_ok || 1) F(FreeUriMembers)(&g_base);
-		free(t); free(b);
+		munmap(t, tmap); munmap(b, bmap); munmap(g_basep, umap);
 	}
 	free(line);
 	return 0;
